@@ -105,6 +105,7 @@ input Range {
   tags: [String] = ["x", "y"]
   inner: Range = {lo: 5, tags: []}
   parts: [Range] = [{hi: 1}, {}]
+  steps: [Range!]! = []
 }
 input Filter {
   minAge: Int = 0
